@@ -1,4 +1,12 @@
-/- dsmodel_wire_hll: wire-format model driver stub (filled in when the family group is built). -/
-def main (_args : List String) : IO UInt32 := do
-  IO.eprintln "dsmodel_wire_hll: not built yet"
-  return 2
+/- dsmodel_wire_hll: HLL wire-format model driver (C09/C10/C11): decodes the images written by the implementation
+with the specification reader instantiated with the constants of the CURRENT headers. -/
+import DSModel.Wire.HllDriver
+import DSModel.DriverLoop
+open DS
+
+def main (args : List String) : IO UInt32 := do
+  match args with
+  | ["hll"] => runDriver () (fun _ w => ((), DS.Wire.Hll.step DS.Wire.Hll.genConsts w))
+  | _ => do
+    IO.eprintln "usage: dsmodel_wire_hll hll"
+    return 2
